@@ -1,0 +1,6 @@
+//go:build !verif
+
+package memory
+
+// verifPoint is a no-op unless the repository is built with the "verif" tag.
+func verifPoint(string) {}
